@@ -310,12 +310,12 @@ def evaluate_each(ctx, cs):
     return [(i, b.split('|')[0], b.split('|')[0] if b.split('|')[1] == '=' else b.split('|')[1], tx) for i, b, tx in zip(impl, both, txs)]
 
 
-def session_family(ctx, nseq, length):
+def session_family(ctx, nseq, length, given=None):
     """whole sessions: a sequence of calls through any mix of the three APIs in a fresh process; the concatenated wire log vs
     Model session_wire and Spec ref_session_wire evaluated in Coq on the whole sequence (C03_session_wire)"""
     r = ctx.rng
-    seqs = []
-    for q in range(nseq):
+    seqs = [[norm(c) for c in seq] for seq in given] if given else []
+    for q in range(0 if given else nseq):
         f = 'T' if q % 4 != 3 else 'R'
         seq = []
         for _ in range(length):
@@ -369,6 +369,10 @@ def run(ctx):
     if not ctx.build_harness() or not models_ok:
         return
     quick = ctx.quick()
+    if ctx.replay and 'session' in ctx.replay:
+        n = session_family(ctx, 0, 0, given=[ctx.replay['session']])
+        ctx.coverage.update({'evaluations': n, 'distinct_nontrivial': n, 'rule': 'replay of one session', 'samples': []})
+        return
     if ctx.replay and 'cases' in ctx.replay:
         cases = [norm(c) for c in ctx.replay['cases']]
         results = evaluate_each(ctx, cases)
